@@ -1,0 +1,140 @@
+//go:build verif
+
+package filecache
+
+// Machine-checked contracts for this package (comment-only; read by the gsv
+// verification-condition generator under /verif). Guarded by the build tag
+// `verif`, so no ordinary build ever sees this file.
+//
+// Ghost state: c.$lent[f] = number of handles to file f lent out by this cache
+// (Opens not yet matched by Close). f.$open / f.$name are ghost fields of
+// *os.File declared with the assumed os contracts.
+//
+// FC is the data-structure invariant of the cache (DESIGN.md §4 C14); every
+// exported method assumes it on entry and proves it on exit. Every method is
+// one critical section under c.lock (checked by the guarded_by declaration), so
+// the sequential proof carries over to concurrent use.
+
+//@ macro ent(c, n) = ptr(entry, c.cache[n].Value.$pay)
+//@ macro entOf(e) = ptr(entry, e.Value.$pay)
+//@ macro cached(c, f) = c.cache != nil && (f.$name in c.cache) && ent(c, f.$name).file == f
+
+//@ type FileCache
+//@   ghost field $lent (Array Int Int)
+//@   guarded_by cache, capacity, ll, onEvicted, removed, hit, miss : lock
+//@   invariant @nilness (self.cache == nil) == (self.ll == nil)
+//@   invariant @capacity self.capacity >= 0 && (self.capacity == 0 ==> self.cache == nil)
+//@   invariant @len self.cache != nil ==> self.ll.$len == len(self.cache) && (self.capacity > 0 ==> self.ll.$len <= self.capacity)
+//@   invariant @entries-elem forall n int :: self.cache != nil && (n in self.cache) ==> self.cache[n] != nil && self.ll.$elems[self.cache[n]]
+//@   invariant @entries-type forall n int :: self.cache != nil && (n in self.cache) ==> typeis(self.cache[n].Value, "*entry") && ent(self, n) != nil
+//@   invariant @entries-name forall n int :: self.cache != nil && (n in self.cache) ==> ent(self, n).file != nil && ent(self, n).file.$name == n
+//@   invariant @refs forall n int :: self.cache != nil && (n in self.cache) ==> ent(self, n).refs >= 0 && ent(self, n).refs == self.$lent[ent(self, n).file] && ent(self, n).file.$open
+//@   invariant @elems forall e *list.Element :: self.cache != nil && self.ll.$elems[e] ==> e != nil && typeis(e.Value, "*entry") && entOf(e) != nil && entOf(e).file != nil && (entOf(e).file.$name in self.cache) && self.cache[entOf(e).file.$name] == e
+//@   invariant @removed forall f *os.File :: self.removed != nil && (f in self.removed) ==> f != nil && self.removed[f] == self.$lent[f] && self.removed[f] > 0 && f.$open && !cached(self, f)
+//@   invariant @lent-open forall f *os.File :: self.$lent[f] > 0 ==> f.$open && f != nil
+//@   invariant @lent-nonneg forall f *os.File :: self.$lent[f] >= 0
+//@   invariant @uncached forall f *os.File :: !cached(self, f) && !(self.removed != nil && (f in self.removed)) ==> self.$lent[f] <= 1
+//@   invariant @unallocated forall f int :: f > $alloc ==> self.$lent[f] == 0
+
+//@ func (c *FileCache) onEvicted(f *os.File, refs int)
+//@   trusted eviction callback supplied by the user: assumed not to re-enter the cache or close the file
+//@   pure
+
+//@ func (c *FileCache) removeElement(elem *list.Element)  property C14 C16
+//@   preserves c -len
+//@   requires c.ll.$len == len(c.cache)
+//@   holds c.lock
+//@   requires c.cache != nil && elem != nil && c.ll.$elems[elem]
+//@   modifies c.ll.$len, c.ll.$elems, mapof(c.cache), mapof(c.removed), c.removed, entOf(elem).file.$open
+//@   ensures @lent c.$lent == old(c.$lent)
+//@   ensures @len c.ll.$len == old(c.ll.$len) - 1 && c.cache == old(c.cache) && c.ll == old(c.ll) && c.ll.$len == len(c.cache)
+//@   ensures @gone !(old(entOf(elem).file.$name) in c.cache)
+//@   ensures @others forall n int :: n != old(entOf(elem).file.$name) ==> (n in c.cache) == old(n in c.cache) && c.cache[n] == old(c.cache[n])
+//@   ensures @closed-iff-unlent old(entOf(elem).file).$open == (c.$lent[old(entOf(elem).file)] > 0)
+//@   assert at before call (*os.File).Close#0: @close-once entOf(elem).file.$open && c.$lent[entOf(elem).file] == 0
+
+//@ func (c *FileCache) removeOldest()  property C14 C16
+//@   preserves c -len
+//@   requires c.cache != nil ==> c.ll.$len == len(c.cache)
+//@   holds c.lock
+//@   modifies c.ll.$len, c.ll.$elems, mapof(c.cache), mapof(c.removed), c.removed, heap("G:os.File.$open")
+//@   ensures @lent c.$lent == old(c.$lent)
+//@   ensures @len c.cache == old(c.cache) && c.ll == old(c.ll) && (c.ll != nil && old(c.ll.$len) > 0 ==> c.ll.$len == old(c.ll.$len) - 1) && (c.cache != nil ==> c.ll.$len == len(c.cache))
+//@   ensures @len-empty c.ll != nil && old(c.ll.$len) == 0 ==> c.ll.$len == 0
+//@   ensures @open-kept forall f *os.File :: c.$lent[f] > 0 ==> f.$open
+
+//@ func (c *FileCache) Open(name string) (file *os.File, err error)  property C14 C16
+//@   preserves c
+//@   requires @no-refcount-overflow forall f *os.File :: c.$lent[f] < (1 << 62)
+//@   requires c.hit < (1 << 62) && c.miss < (1 << 62)
+//@   modifies c.cache, c.ll, c.hit, c.miss, c.removed, mapof(c.cache), mapof(c.removed), heap("G:container/list.List."), heap("G:os.File.$open"), heap("F:~/store/filecache.entry.refs"), c.$lent
+//@   ghost at after call os.OpenFile#0: c.$lent = ite($r1 == nil, c.$lent[$r0 := c.$lent[$r0] + 1], c.$lent)
+//@   ghost at after call (*container/list.List).MoveToFront#0: c.$lent = c.$lent[ent(c, name).file := c.$lent[ent(c, name).file] + 1]
+//@   ghost at after call os.OpenFile#1: c.$lent = ite($r1 == nil, c.$lent[$r0 := c.$lent[$r0] + 1], c.$lent)
+//@   ensures @handle err == nil ==> file != nil && file.$open && file.$name == name
+//@   ensures @lent err == nil ==> c.$lent == old(c.$lent)[file := old(c.$lent)[file] + 1]
+//@   ensures @lent-err err != nil ==> c.$lent == old(c.$lent) && file == nil
+//@   ensures @open-kept forall f *os.File :: old(c.$lent)[f] > 0 ==> f.$open
+
+//@ func (c *FileCache) Close(file *os.File) (err error)  property C14 C16
+//@   preserves c
+//@   requires file != nil && c.$lent[file] > 0
+//@   modifies mapof(c.removed), c.removed, file.$open, heap("F:~/store/filecache.entry.refs"), c.$lent
+//@   ghost at entry: c.$lent = c.$lent[file := c.$lent[file] - 1]
+//@   ensures @lent c.$lent == old(c.$lent)[file := old(c.$lent)[file] - 1]
+//@   ensures @open-kept forall f *os.File :: c.$lent[f] > 0 ==> f.$open
+//@   ensures @others-open forall f *os.File :: f != file ==> f.$open == old(f.$open)
+//@   ensures @closed-iff file.$open == (cached(c, file) || c.$lent[file] > 0)
+//@   assert at before call (*os.File).Close: @close-once file.$open
+
+//@ func (c *FileCache) Remove(name string)  property C14 C16
+//@   preserves c
+//@   modifies c.removed, mapof(c.cache), mapof(c.removed), heap("G:container/list.List."), heap("G:os.File.$open")
+//@   ensures @lent c.$lent == old(c.$lent)
+//@   ensures @open-kept forall f *os.File :: c.$lent[f] > 0 ==> f.$open
+
+//@ func (c *FileCache) Clear()  property C14 C16
+//@   preserves c
+//@   modifies c.cache, c.ll, c.removed, mapof(c.cache), mapof(c.removed), heap("G:container/list.List."), heap("G:os.File.$open")
+//@   ensures @lent c.$lent == old(c.$lent)
+//@   ensures @empty c.cache == nil
+//@   ensures @open-kept forall f *os.File :: c.$lent[f] > 0 ==> f.$open
+//@   loop 0 invariant c.cache == old(c.cache) && c.ll == old(c.ll) && c.capacity == old(c.capacity) && c.$lent == old(c.$lent) && held(c.lock)
+//@   loop 0 invariant @fc inv(c)
+//@   loop 0 invariant @visited-gone forall n int :: visited(n) ==> !(n in c.cache)
+
+//@ func (c *FileCache) SetCacheSize(capacity int)  property C14 C16
+//@   preserves c
+//@   modifies c.cache, c.ll, c.capacity, c.removed, mapof(c.cache), mapof(c.removed), heap("G:container/list.List."), heap("G:os.File.$open")
+//@   ensures @lent c.$lent == old(c.$lent)
+//@   ensures @capacity c.capacity == ite(capacity < 0, 0, capacity)
+//@   ensures @open-kept forall f *os.File :: c.$lent[f] > 0 ==> f.$open
+//@   loop 0 invariant c.cache == old(c.cache) && c.ll == old(c.ll) && c.capacity == old(c.capacity) && c.$lent == old(c.$lent) && held(c.lock) && capacity == 0
+//@   loop 0 invariant @fc inv(c)
+//@   loop 0 invariant @visited-gone forall n int :: visited(n) ==> !(n in c.cache)
+//@   loop 1 invariant c.cache == old(c.cache) && c.ll == old(c.ll) && c.capacity == old(c.capacity) && c.$lent == old(c.$lent) && held(c.lock)
+//@   loop 1 invariant capacity > 0 && capacity <= i && capacity < c.capacity
+//@   loop 1 invariant @fc inv(c)
+//@   loop 1 invariant @progress c.cache != nil ==> c.ll.$len + (i - capacity) <= c.capacity
+
+//@ func (c *FileCache) Len() (n int)  property C14 C16
+//@   preserves c
+//@   ensures n == ite(c.cache == nil, 0, len(c.cache))
+
+//@ func (c *FileCache) Cap() (n int)  property C14 C16
+//@   preserves c
+//@   ensures n == c.capacity
+
+//@ func (c *FileCache) SetOnEvicted(f func(*os.File, int))  property C14 C16
+//@   preserves c
+//@   modifies c.onEvicted
+
+//@ func (c *FileCache) Stats() (hit int, miss int, items int, capacity int)  property C14 C16
+//@   preserves c
+//@   modifies c.hit, c.miss
+
+//@ func NewOpenFile(capacity int, openFlag int, openPerm os.FileMode) (c *FileCache)  property C14
+//@   fresh c
+//@   ghost at return: c.$lent = izero
+//@   ensures @inv c != nil && inv(c)
+//@   ensures @empty c.cache == nil && forall f *os.File :: c.$lent[f] == 0
